@@ -252,6 +252,12 @@ class Reader:
                 out.append({'t': 'tbl', 'tok': 0, 'rows': rows})
         return out
 
+def _paras_of(blocks):
+    for b in blocks:
+        if b['t'] == 'p': yield b
+        else:
+            for r in b['rows']:
+                for c in r: yield from _paras_of(c['blocks'])
 def read(b, table=None):
     z = zipfile.ZipFile(io.BytesIO(b))
     rd = Reader(table)
@@ -282,6 +288,10 @@ def read(b, table=None):
     stories.append({'kind': 1, 'blocks': rd.blocks(body), 'part': 'word/document.xml'})
     for f, t in foots: stories.append({'kind': 2, 'blocks': rd.blocks(etree.fromstring(z.read(f))), 'part': f, 'hf': t})
     comments = read_comments(z)
+    # hypotheses of the engine theorems, established here by construction and asserted: paragraph identities lie below the next free
+    # identity (wf_ids); node identities are pairwise different (C10_range_around)
+    _pids = [p['pid'] for s in stories for p in _paras_of(s['blocks'])]
+    assert all(x < rd.uid + 1000 for x in _pids) and len(set(_pids)) == len(_pids), 'reader: paragraph identities'
     loc = 'de' if any(k.startswith('berschrift') for k in rd.style_names) else 'en'
     return {'stories': stories, 'comments': comments, 'next_uid': rd.uid + 1000, 'rpr_table': rd.table, 'style_ids': loc}
 
